@@ -49,6 +49,9 @@ def gen_cases(tier, rng):
     cases += G.gen_random('D', rng, nrand)
     fail_cases, fail_info = G.gen_sprintf_fail('D', tier)
     cases += fail_cases
+    mixed_cases, mixed_info = G.gen_mixed('D', tier)
+    cases += mixed_cases
+    fail_info = fail_info + mixed_info
     return {'cases': cases, 'exhaustive': True,
             'scopes': ['exhaustive: L in %s, all contents over {a,b}, every operation with positions/counts in 0..L+2 and '
                        'npos, sources of length 0..L+2' % caps]
@@ -126,9 +129,9 @@ def classify(case, ir, mr):
 
 
 CLAIM = {
-    'text': 'Coq theorems (Properties_C11.v), all closed under the global context: for every capacity, every well-formed pair '
-            'of objects and every argument inside the documented domain, (1) each of the 41 modelled modifying entry points '
-            '(constructors, assign, insert / erase / push_back / pop_back / append / sprintf / replace families incl. iterator '
+    'text': 'Coq theorems (Properties_C11.v), all closed under the global context: for every two capacities (object / other '
+            'object, independent), every well-formed pair of objects and every argument inside the documented domain, (1) each of the 42 modelled modifying entry points '
+            '(constructors incl. the converting constructor from another capacity, assign, insert / erase / push_back / pop_back / append / sprintf / replace families incl. iterator '
             'overloads, swap, clear; a sprintf whose conversion fails is specified as "assign the empty string") leaves exactly the text std::string has after the same operation, cut at L '
             '(C11_mutators_refine); (2) each of the 49 observing entry points - the 9 compare overloads, starts_with / ends_with '
             '/ contains (4 overloads each), substr, copy, at/front/back/length/empty/str, == and !=, the traversal in both '
